@@ -74,9 +74,17 @@ type wprov struct {
 func (p *wprov) Run(ctx context.Context, deps core.ProviderDeps) error { return p.inner.Run(ctx, deps) }
 func (p *wprov) Acquire() (core.Ammo, bool) {
 	p.r.gate()
-	p.r.mu.Lock()
-	defer p.r.mu.Unlock()
-	a, ok := p.inner.Acquire()
+	var a core.Ammo
+	var ok bool
+	if p.r.loose {
+		a, ok = p.inner.Acquire()
+		p.r.mu.Lock()
+		defer p.r.mu.Unlock()
+	} else {
+		p.r.mu.Lock()
+		defer p.r.mu.Unlock()
+		a, ok = p.inner.Acquire()
+	}
 	t := p.r.tid()
 	if !ok {
 		p.r.logf("e%d", p.r.lid(t))
@@ -94,9 +102,14 @@ func (p *wprov) Acquire() (core.Ammo, bool) {
 func (p *wprov) Release(a core.Ammo) {
 	p.r.gate()
 	p.r.mu.Lock()
-	defer p.r.mu.Unlock()
 	t := p.r.tid()
 	p.r.logf("r%d:%d", p.r.lid(t), p.r.released(t, a))
+	if p.r.loose {
+		p.r.mu.Unlock()
+		p.inner.Release(a)
+		return
+	}
+	defer p.r.mu.Unlock()
 	p.inner.Release(a)
 }
 
@@ -168,6 +181,10 @@ func (s *sched) Next() (time.Time, bool) {
 		s.r.mu.Lock()
 		defer s.r.mu.Unlock()
 		delete(s.r.inCall, s.r.tid())
+	} else if s.r.loose {
+		tx, ok = s.inner.Next()
+		s.r.mu.Lock()
+		defer s.r.mu.Unlock()
 	} else {
 		s.r.mu.Lock()
 		defer s.r.mu.Unlock()
@@ -199,6 +216,10 @@ func (s *sched) Left() int {
 		s.r.mu.Lock()
 		defer s.r.mu.Unlock()
 		delete(s.r.inCall, s.r.tid())
+	} else if s.r.loose {
+		l = s.inner.Left()
+		s.r.mu.Lock()
+		defer s.r.mu.Unlock()
 	} else {
 		s.r.mu.Lock()
 		defer s.r.mu.Unlock()
@@ -356,6 +377,13 @@ func (a *aggr) Report(s core.Sample) {
 		a.r.gate()
 		a.r.mu.Lock()
 		a.r.logf("d%d", a.r.lid(a.r.tid()))
+		if a.r.loose {
+			a.r.mu.Unlock()
+			if a.inner != nil {
+				a.inner.Report(s)
+			}
+			return
+		}
 		if a.inner != nil {
 			a.inner.Report(s)
 		}
